@@ -293,13 +293,20 @@ impl Ctx {
                 member_events.push(self.kp_event(&self.mdk_b, &self.pool[*i]));
             }
         }
-        let cfg = NostrGroupConfigData::new(name.clone(), desc.clone(), ih, ik, inn, relays.clone(), admins.clone());
+        // inviting members needs at least one relay (d10c4c6): a value with extra admins and NO relay is
+        // created with a placeholder relay, the requested (empty) relay set is written by update_group_data
+        let create_relays = if relays.is_empty() && !member_events.is_empty() {
+            vec![RelayUrl::parse("wss://placeholder.example.com").unwrap()]
+        } else {
+            relays.clone()
+        };
+        let cfg = NostrGroupConfigData::new(name.clone(), desc.clone(), ih, ik, inn, create_relays, admins.clone());
         let g = match self.mdk.create_group(&creator, member_events, cfg) {
             Ok(g) => g,
             Err(e) => return Some(format!("err create:{e:?}")),
         };
         let mid = g.group.mls_group_id.clone();
-        let upd = NostrGroupDataUpdate { nostr_group_id: Some(gid), image_upload_key: Some(iu), ..Default::default() };
+        let upd = NostrGroupDataUpdate { nostr_group_id: Some(gid), image_upload_key: Some(iu), relays: Some(relays.clone()), ..Default::default() };
         if let Err(e) = self.mdk.update_group_data(&mid, upd) { return Some(format!("err update:{e:?}")); }
         if let Err(e) = self.mdk.merge_pending_commit(&mid) { return Some(format!("err merge:{e:?}")); }
         let mls = self.mdk.load_mls_group(&mid).ok()??;
@@ -400,11 +407,21 @@ impl Ctx {
         let member = &self.pool[2];
         let kp = self.kp_event(&self.mdk_b, member);
         let cfg = NostrGroupConfigData::new(name.clone(), "d".into(), None, None, None, relays.clone(), vec![creator]);
-        let g = match self.mdk.create_group(&creator, vec![kp.clone()], cfg) {
+        let refused = |e: Error| Some(format!("err create | {}", format!("{e:?}").replace(' ', "_")));
+        // via=add: the group is created without members and the member is invited by add_members
+        let via_add = field(t, "via") == Some("add");
+        let g = match self.mdk.create_group(&creator, if via_add { vec![] } else { vec![kp.clone()] }, cfg) {
             Ok(g) => g,
-            Err(e) => return Some(format!("err create:{e:?}")),
+            Err(e) => return refused(e),
         };
-        let mut rumor = g.welcome_rumors.first()?.clone();
+        let mut rumor = if via_add {
+            match self.mdk.add_members(&g.group.mls_group_id, &[kp.clone()]) {
+                Ok(u) => u.welcome_rumors?.first()?.clone(),
+                Err(e) => return refused(e),
+            }
+        } else {
+            g.welcome_rumors.first()?.clone()
+        };
         if field(t, "content") == Some("trail") {
             // the serialised MLS welcome followed by three extra bytes
             let mut b = BASE64.decode(&rumor.content).ok()?;
@@ -419,7 +436,8 @@ impl Ctx {
             Ok(w) => ("ok".to_string(), (w.group_name == name && w.group_relays == relays.iter().cloned().collect()
                 && w.nostr_group_id == g.group.nostr_group_id && w.group_admin_pubkeys == g.group.admin_pubkeys) as u8),
             Err(Error::InvalidWelcomeMessage) => ("reject".to_string(), 0),
-            Err(e) => (format!("err:{e:?}").replace(' ', "_"), 0),
+            Err(Error::Welcome(_)) => ("err:welcome".to_string(), 0),
+            Err(_) => ("err:other".to_string(), 0),
         };
         Some(format!("kind={} tags={} verdict={} | rt={}", rumor.kind.as_u16(),
             show_tags(&tags, &[("$E", kp.id.to_hex())]), verdict, rt))
@@ -490,6 +508,26 @@ impl Ctx {
         Some(Self::imeta_res(mgr.parse_imeta_tag(tags.first()?)))
     }
 
+    /// C17 (media part): are the HKDF contexts / AADs of two metadata triples the same?  Observed through
+    /// the real primitives: equal derived keys ⇔ equal context (A8), decrypt under the second triple's AAD
+    /// opens ⇔ equal AAD (A8).
+    fn media_pair(&self, t: &[&str]) -> Option<String> {
+        use mdk_core::encrypted_media::crypto::{DEFAULT_SCHEME_VERSION, decrypt_data_with_aad, derive_encryption_key, encrypt_data_with_aad};
+        let get = |k: &str| -> Option<([u8; 32], String, String)> {
+            let h: [u8; 32] = arr(&hex::decode(field(t, &format!("h{k}"))?).ok()?)?;
+            Some((h, utf8(unhex(field(t, &format!("m{k}"))?)?)?, utf8(unhex(field(t, &format!("f{k}"))?)?)?))
+        };
+        let (h1, m1, f1) = get("1")?;
+        let (h2, m2, f2) = get("2")?;
+        let k1 = derive_encryption_key(&self.mdk, &self.fixture_group, DEFAULT_SCHEME_VERSION, &h1, &m1, &f1).ok()?;
+        let k2 = derive_encryption_key(&self.mdk, &self.fixture_group, DEFAULT_SCHEME_VERSION, &h2, &m2, &f2).ok()?;
+        let nonce = mdk_storage_traits::Secret::new([7u8; 12]);
+        let ct = encrypt_data_with_aad(b"media bytes", &k1, &nonce, DEFAULT_SCHEME_VERSION, &h1, &m1, &f1).ok()?;
+        let opened = decrypt_data_with_aad(&ct, &k1, &nonce, DEFAULT_SCHEME_VERSION, &h2, &m2, &f2);
+        let same_key = k1.as_ref() == k2.as_ref();
+        Some(format!("ctx={} aad={}", if same_key { "same" } else { "diff" }, if opened.is_ok() { "open" } else { "fail" }))
+    }
+
     fn exec(&self, t: &[&str]) -> String {
         let r = match t[0] {
             "pool" => Some(format!("ok {}", self.pool.iter().map(|k| k.public_key().to_hex()).collect::<Vec<_>>().join(","))),
@@ -502,6 +540,7 @@ impl Ctx {
             "hex_gid" => self.hex_gid(t),
             "imeta_create" => self.imeta_create(t),
             "imeta_parse" => self.imeta_parse(t),
+            "media_pair" => self.media_pair(t),
             _ => None,
         };
         r.unwrap_or_else(|| "bad-op".into())
